@@ -22,4 +22,6 @@ MUTANTS = [
                (ENC, "            current_chunk_offset: 0,\n            current_ctr: 0,\n        })\n    }\n\n    fn renew_cipher", "            current_chunk_offset: 0,\n            current_ctr: 0,\n            pending: Vec::new(),\n        })\n    }\n\n    fn renew_cipher")]},
     {'id': 'c14-benign-flush-via-local', 'props': ['C14'], 'expect': 'silent',
      'edits': [(POS, "    fn flush(&mut self) -> io::Result<()> {\n        self.inner.flush()\n    }", "    fn flush(&mut self) -> io::Result<()> {\n        let inner = &mut self.inner;\n        inner.flush()?;\n        Ok(())\n    }")]},
+    # correct twin of the seeded C14 change (buffered encryption writer whose flush drains the buffer through a helper)
+    {'id': 'c14-benign-buffered-writer-flush-drains', 'props': ['C14'], 'expect': 'silent', 'patch': 'patches/c14-buffered-encrypt-writer-flush-drains.diff'},
 ]
